@@ -168,7 +168,7 @@ def run(ctx):
         raise ToolError("Gen_Fmt generated no scenario")
     n_tlc = len(scns)
     rp = ctx.path("random.ndjson")
-    ctx.vh_gen(SUB, rp, 60 if q else 900)
+    ctx.vh_gen(SUB, rp, 60 if q else 1500)
     for l in open(rp):
         d = json.loads(l); d["random"] = 1
         scns.append(d)
